@@ -182,6 +182,9 @@ func genKDStruct(g *vlib.G) {
 				if n > 500 && j != n && j != n/2 {
 					continue // the big sets: bulk and half/half only
 				}
+				if n > 40 && (j == 1 || j == n-1) && !g.Thorough() {
+					continue // quick: the one-off splits for the small sets only
+				}
 				key := fmt.Sprintf("%s order=%d bulk=%d ins=%d", set.name, oi, j, n-j)
 				g.Case(key, func(t *vlib.T) {
 					st := &kdRunStats{}
